@@ -285,7 +285,11 @@ async fn open_dev(files: &[SimFile], p: &Params) -> Result<Dev, String> {
         cur = Some(d);
     }
     let dev = cur.unwrap();
-    dev.qcow2_prep_io().await.map_err(|e| format!("{}", e))?;
+    if let Err(e) = dev.qcow2_prep_io().await {
+        // a caller may retry the preparation on the same device (one-shot faults are gone by then): the tables it
+        // failed to load must be loaded then
+        dev.qcow2_prep_io().await.map_err(|e2| format!("{} (retried: {})", e, e2))?;
+    }
     Ok(dev)
 }
 
